@@ -225,3 +225,13 @@ def c15_e(ctx):
                   'get_sub_seed({}, {})'.format(s0, s1),
                   'get_sub_seed({}, {}): the master seed is not the first argument'.format(
                       s0, s1), fn=g, node=c)
+
+
+# The per-row index of external operations reaches get_sub_seed only if the meta data are
+# unpacked before the seed is prepared: same obligation as C18-c.
+from . import C18 as _C18   # noqa: E402
+
+obligation('C15-f', 'T1 T3', 'the row index is available when the per-row sub-seed is derived '
+           '(shared with C18-c)', floor=5,
+           necessary='otherwise every row of a batch is given index 0 and the same derived '
+                     'seed')(_C18.c18_c)
